@@ -85,6 +85,10 @@ type c10Spec struct {
 	AType      string      `json:"client_assertion_type"`
 	Assert     *c10Assert  `json:"client_assertion,omitempty"`
 	RequestURI bool        `json:"request_uri,omitempty"`
+	// credentials placed in the request URI instead of the body: the request URI is no transport any authentication
+	// method permits (RFC 6749 2.3.1), so the model is given the body only (these fields never reach it)
+	QuerySecret string `json:"query_client_secret,omitempty"`
+	QueryAssert bool   `json:"assertion_in_query,omitempty"`
 	// implementation's observation (informative in the replay file; recomputed on replay)
 	Res     string `json:"impl_result"`
 	Client  string `json:"impl_client"`
@@ -661,7 +665,26 @@ func c10Run(t *testing.T, sp *c10Spec, repo string) (Case, *c10Table) {
 			asCoq = fmt.Sprintf("(As true %s %s %s %s %s %s %s)", sub, Q(a.Iss), keyOf, B(!a.Expired), B(!a.NoJTI), B(a.Replay && !a.NoJTI), B(!a.BadAud))
 		}
 	}
-	req := httptest.NewRequest("POST", "/"+sp.Endpoint, strings.NewReader(form.Encode()))
+	target := "/" + sp.Endpoint
+	uriAType, uriAhas, uriAs := "", false, "no_as"
+	if sp.QuerySecret != "" || sp.QueryAssert {
+		q := url.Values{}
+		if sp.QuerySecret != "" {
+			q.Set("client_secret", sp.QuerySecret)
+		}
+		if sp.QueryAssert {
+			for _, k := range []string{"client_assertion_type", "client_assertion"} {
+				if form.Get(k) != "" {
+					q.Set(k, form.Get(k))
+					form.Del(k)
+				}
+			}
+			uriAType, uriAhas, uriAs = sp.AType, ahas, asCoq
+			ahas, asCoq = false, "no_as"
+		}
+		target += "?" + q.Encode()
+	}
+	req := httptest.NewRequest("POST", target, strings.NewReader(form.Encode()))
 	req.Header.Set("Content-Type", "application/x-www-form-urlencoded")
 	if sp.AuthHeader != "" {
 		req.Header.Set("Authorization", sp.AuthHeader)
@@ -690,6 +713,9 @@ func c10Run(t *testing.T, sp *c10Spec, repo string) (Case, *c10Table) {
 		hdrCoq = fmt.Sprintf("(HBasic %s %s %s)", Q(p), uo, po)
 	}
 	cand = append(cand, sp.FormSecret)
+	if sp.QuerySecret != "" {
+		cand = append(cand, sp.QuerySecret)
+	}
 	var cmpPairs []string
 	seenPair := map[string]bool{}
 	hnames := make([]string, 0, len(hashes))
@@ -797,9 +823,18 @@ func c10Run(t *testing.T, sp *c10Spec, repo string) (Case, *c10Table) {
 	if sp.Switch {
 		cf = "cf1"
 	}
-	rq := fmt.Sprintf("(Rq %s %s %s %s %s %s)", hdrCoq, Q(sp.FormID), Q(sp.FormSecret), Q(sp.AType), B(ahas), asCoq)
+	atype := sp.AType
+	if sp.QueryAssert {
+		atype = ""
+	}
+	rq := fmt.Sprintf("(Rq %s %s %s %s %s %s)", hdrCoq, Q(sp.FormID), Q(sp.FormSecret), Q(atype), B(ahas), asCoq)
 	coq := fmt.Sprintf("K %s %s %s %s %s %s (Obs %s %s %s) %s %s", cf, L(coqClients), L(cmpPairs), ep, rq, L(houts),
 		Q(res), Q(client), L(calls), B(changed), Q(final))
+	if sp.QuerySecret != "" || sp.QueryAssert {
+		uq := fmt.Sprintf("(Rq HNone \"\" %s %s %s %s)", Q(sp.QuerySecret), Q(uriAType), B(uriAhas), uriAs)
+		coq = fmt.Sprintf("KU %s %s %s %s %s %s %s (Obs %s %s %s) %s %s", cf, L(coqClients), L(cmpPairs), ep, rq, uq, L(houts),
+			Q(res), Q(client), L(calls), B(changed), Q(final))
+	}
 	sp.Res, sp.Client, sp.Calls, sp.Final, sp.Changed = res, client, append([]int{}, lg.calls...), final, changed
 
 	// non-trivial: the decision depended on a registration (a registered client was named)
@@ -809,7 +844,7 @@ func c10Run(t *testing.T, sp *c10Spec, repo string) (Case, *c10Table) {
 			nt = true
 		}
 	}
-	key := fmt.Sprintf("%s|%s|%v|%v|%s|%s|%s|%s|%+v|%v", sp.Endpoint, sp.Grant, sp.Switch, sp.Clients, sp.AuthHeader, sp.FormID, sp.FormSecret, sp.AType, sp.Assert, sp.RequestURI)
+	key := fmt.Sprintf("%s|%s|%v|%v|%s|%s|%s|%s|%+v|%v", sp.Endpoint, sp.Grant, sp.Switch, sp.Clients, sp.AuthHeader, sp.FormID, sp.FormSecret, sp.AType, sp.Assert, sp.RequestURI) + "|" + sp.QuerySecret + fmt.Sprint(sp.QueryAssert)
 	cp := *sp
 	return Case{Coq: coq, Replay: &cp, NonTrivial: nt, Key: key}, tbl
 }
@@ -994,6 +1029,10 @@ func c10Transports() []c10Transport {
 			sp.FormID, sp.FormSecret = id, s
 		}},
 		{"body-id-only", false, func(sp *c10Spec, id, s string) { sp.FormID = id }},
+		{"body-id+query-secret", true, func(sp *c10Spec, id, s string) { sp.FormID, sp.QuerySecret = id, s }},
+		{"query-assertion", false, func(sp *c10Spec, id, s string) {
+			sp.AType, sp.Assert, sp.QueryAssert = c10AType, jwt("t", id, id), true
+		}},
 		{"body-secret-only", true, func(sp *c10Spec, id, s string) { sp.FormSecret = s }},
 		{"none", false, func(sp *c10Spec, id, s string) {}},
 		{"unknown-id-basic", true, func(sp *c10Spec, id, s string) { sp.AuthHeader = basicHeader("nobody", esc(s)) }},
